@@ -26,6 +26,7 @@ from __future__ import annotations
 
 import os
 import sys
+import re
 import threading
 import time
 
@@ -58,6 +59,39 @@ class Result:
         self.interfered = []  # per thread: set of probe field names that changed while it was parked
         self.window_kinds_seen = set()
         self.trace = None
+        self.held_locks = []  # pandera locks still held when the run ended / stalled
+
+
+_LOCK_TYPES = (type(threading.Lock()), type(threading.RLock()))
+
+
+def held_pandera_locks():
+    """Locks kept in pandera module globals / attributes of pandera classes that are held right now:
+    [(where, repr)].  (A validate call that has returned or raised holds none; a lock still held once every thread
+    finished can never be released again.)"""
+    import sys
+
+    out = []
+    for mname, mod in list(sys.modules.items()):
+        if mod is None or not (mname == "pandera" or mname.startswith("pandera.")):
+            continue
+        try:
+            items = list(vars(mod).items())
+        except Exception:  # noqa: BLE001
+            continue
+        for name, obj in items:
+            cands = [(f"{mname}.{name}", obj)]
+            if isinstance(obj, type) and getattr(obj, "__module__", None) == mname:
+                try:
+                    cands += [(f"{mname}.{name}.{k}", v) for k, v in vars(obj).items()]
+                except Exception:  # noqa: BLE001
+                    pass
+            for where, o in cands:
+                if isinstance(o, _LOCK_TYPES):
+                    r = repr(o)
+                    if r.startswith("<locked"):
+                        out.append((where, r.split(" at 0x")[0]))
+    return out
 
 
 class Sched:
@@ -235,7 +269,20 @@ class Sched:
                             out.interfered[cur].add(k)
             self.budget = left
             self.sems[cur].release()
-            if not self.ctl.acquire(timeout=self.step_timeout) or time.time() - t_start > self.total_timeout:
+            got = self.ctl.acquire(timeout=min(5.0, self.step_timeout))
+            if not got:
+                # stalled: blocked on a pandera lock that a thread which has already finished left held?
+                held = held_pandera_locks()
+                live = {t.ident for t, d in zip(threads, self.done) if not d}
+                owners = [int(m.group(1)) for _, r in held for m in [re.search(r"owner=(\d+)", r)] if m]
+                if held and (any(self.done[t] for t in range(self.n)) or any(o not in live for o in owners)):
+                    out.status = "deadlock"
+                    out.why = f"thread {cur} stalled at step {self.steps[cur]} while {held} is held and a thread has finished"
+                    out.held_locks = held
+                    self._abort(threads)
+                    break
+                got = self.ctl.acquire(timeout=max(0.1, self.step_timeout - 5.0))
+            if not got or time.time() - t_start > self.total_timeout:
                 out.status = "inconclusive"
                 out.why = f"watchdog: thread {cur} did not reach the end of its segment (at step {self.steps[cur]})"
                 self._abort(threads)
@@ -247,6 +294,8 @@ class Sched:
             for t in threads:
                 t.join(timeout=30)
         out.results = list(self.res)
+        if out.status == "ok":
+            out.held_locks = held_pandera_locks()
         out.steps = list(self.steps)
         out.window_kinds_seen = set(self.seen_kinds)
         out.trace = self.trace
